@@ -185,6 +185,9 @@ func (c *Ctx) Fail(sig string, what string, replay map[string]any) {
 		}
 	}
 	if len(c.violations) >= 20 {
+		if len(c.violations) == 20 {
+			fmt.Printf("(further violations of %s are counted but not listed)\n", c.Prop)
+		}
 		c.violations = append(c.violations, "")
 		return
 	}
@@ -205,6 +208,13 @@ func (c *Ctx) Fail(sig string, what string, replay map[string]any) {
 
 func (c *Ctx) NumViolations() int { return len(c.violations) }
 
+// Failed reports whether a violation or an infrastructure problem has been recorded so far.
+func (c *Ctx) Failed() bool {
+	c.mu.Lock()
+	defer c.mu.Unlock()
+	return c.infra != nil || len(c.violations) > 0
+}
+
 type evidence struct {
 	PropertyID  string         `json:"property_id"`
 	Tier        string         `json:"tier"`
@@ -221,6 +231,9 @@ func (c *Ctx) Finish(rule string) int {
 	defer os.RemoveAll(c.scratch)
 	if c.infra != nil {
 		fmt.Fprintf(os.Stderr, "INFRASTRUCTURE property=%s: %v\n", c.Prop, c.infra)
+		if len(c.violations) > 0 {
+			return 1 // violations already reported (and reproduced on the real code) stay violations
+		}
 		return 2
 	}
 	ids := make([]string, 0, len(c.knownSeen))
@@ -296,21 +309,22 @@ type TLCOpt struct {
 }
 
 type TLCResult struct {
-	Out        string
-	Generated  int64
-	Distinct   int64
-	Emitted    string // path to emitted ndjson (may not exist)
-	Dir        string
+	Out         string
+	Generated   int64
+	Distinct    int64
+	Emitted     string // path to emitted ndjson (may not exist)
+	Dir         string
 	InvViolated string // name of violated invariant/property if any
-	ErrText    string
-	Wall       time.Duration
-	Coverage   map[string]int64
+	ErrText     string
+	Wall        time.Duration
+	Coverage    map[string]int64
 }
 
 var (
-	reStates = regexp.MustCompile(`(\d+) states generated, (\d+) distinct states found`)
-	reInv    = regexp.MustCompile(`Invariant (\S+) is violated|Action property (\S+) is violated|Temporal properties were violated|Deadlock reached`)
-	reSim    = regexp.MustCompile(`(\d+) states checked`)
+	reStates   = regexp.MustCompile(`(\d+) states generated, (\d+) distinct states found`)
+	reInv      = regexp.MustCompile(`Invariant (\S+) is violated|Action property (\S+) is violated|Temporal properties were violated|Deadlock reached`)
+	reTemporal = regexp.MustCompile(`Temporal property (\S+) was violated`)
+	reSim      = regexp.MustCompile(`(\d+) states checked`)
 )
 
 func copySpecDir(dst string) error {
@@ -414,6 +428,9 @@ func (c *Ctx) TLC(o TLCOpt) (*TLCResult, error) {
 		if res.InvViolated == "" {
 			res.InvViolated = m[0]
 		}
+	}
+	if m := reTemporal.FindStringSubmatch(res.Out); m != nil {
+		res.InvViolated = m[1]
 	}
 	if o.Coverage {
 		res.Coverage = parseCoverage(res.Out)
